@@ -28,6 +28,7 @@ Proof.
   - vm_compute. reflexivity.
   - vm_compute. reflexivity.
   - vm_compute. reflexivity.
+  - vm_compute. reflexivity.
   - intros k a _ Hd Hc. apply last_def_in in Hd. destruct Hd as [Hd|Hd]; [discriminate|].
     destruct k as [k1 k2].
     change (rs_offsets (N.of_nat (length c08_pre)) c08c_hi_objs)
@@ -44,3 +45,27 @@ Example c08_job_example :
   rj_exit (mkRjJob None [d; i] [] [] None) = 3 /\ rj_exit (mkRjJob None [i; d] [] [] None) = 3 /\
   rj_files (mkRjJob None [i; d] [] [] None) = [d; i].
 Proof. vm_compute. repeat split. Qed.
+(* non-vacuity of xref_stream_short_data_reconstructs: every hypothesis is met by the five-object file whose
+   cross-reference stream lost its last entry (the stream object itself satisfies no_lookalike), and the conclusion
+   puts object 4 0 - whose entry is still there - and 5 0 - whose entry was cut off - into the table *)
+Example c08_xref_stream_example :
+  forall o, In o (c08x_body c08x_short_xs) ->
+  exists off, rc_lookup (rs_id o) (r_table (rc_view true (c08x_file c08x_short_xs))) = Some off /\
+              rs_last_def (rs_id o) (rs_offsets (N.of_nat (length c08x_pre)) (c08x_body c08x_short_xs)) None = Some off.
+Proof.
+  intros o Hin.
+  assert (Hv : rs_valid_id (Z.min (rc_int_max - 1) (Z.of_N (rc_len (c08x_file c08x_short_xs) / 3))) (rs_id o) = true).
+  { simpl in Hin. destruct Hin as [<-|[<-|[<-|[<-|[<-|[]]]]]]; vm_compute; reflexivity. }
+  destruct (xref_stream_short_data_reconstructs c08x_pre (c08x_body c08x_short_xs) c08x_tail o) as [_ [_ H]].
+  - vm_compute. reflexivity.
+  - repeat (constructor; [vm_compute; reflexivity|]). constructor.
+  - vm_compute. reflexivity.
+  - vm_compute. reflexivity.
+  - vm_compute. reflexivity.
+  - unfold xs_short_at. do 7 eexists. split; [vm_compute; reflexivity|].
+    split; [vm_compute; reflexivity|]. split; [vm_compute; reflexivity|]. split; [vm_compute; reflexivity|].
+    vm_compute. reflexivity.
+  - exact Hin.
+  - exact Hv.
+  - exact H.
+Qed.
